@@ -59,6 +59,9 @@ EVOLVE = dict(SEEDED, **{"Evolves": "TRUE", "Ids": "<- c_Ids3g", "Vecs": "<- c_V
 # the seed also holds an edge history (a->b linked, soft-unlinked, re-linked; b->g): deletes and restarts on top of it
 SEEDED_G = dict(SEEDED, **{"SeedGraph": "TRUE", "MaxFile": 12, "MaxVer": 3})
 
+# auto-link rule on the seeded graph index: an insertion whose metadata names a node creates (and journals) an edge
+AUTOLINK = dict(SEEDED, **{"ALs": "<- c_ALk", "MVals": "<- c_MValsN", "Ids": "<- c_Ids3g", "MaxCtr": 6, "MaxFile": 12, "MaxVer": 3})
+
 INVS = ["Inv_CleanRestart", "Inv_RestartIdempotent", "Inv_IdMaps", "Inv_ListedIsReadable", "Inv_FwdRevAgree", "Inv_OneActive", "Inv_NoEdgeToDead"]
 PROPS = ["Prop_RejectedNoChange", "Prop_MaintenanceInvisible", "Prop_ReopenIdentity", "Prop_DeleteTouchesOnlyIncident"]
 
@@ -315,6 +318,17 @@ def run(prop, tier):
         for i, b in enumerate(b2):
             b["id"] = "sw%d" % i
         plans.append((SEEDED, b1 + b2))
+    if prop in ("C01", "C04", "C10"):
+        # auto-link rule on the index: insertions whose metadata names a node create and journal an edge
+        al = dict(AUTOLINK, MaxOps=1 if quick else 2, MaxRej=0)
+        if not quick:
+            model_check(chk, "MC_Kektor_autolink", al, timeout=3000)
+        ca = corpus(chk, "MC_Kektor_autolink_corpus", al, workers=8, timeout=3000)
+        fires = lambda ops: any(o.get("op") in ("VAdd", "VAddBatch") and o.get("res") == "ok" and (o.get("meta") or {}).get("k") not in (None, "nil") for o in ops[4:])
+        b9, _ = vlib.behaviours_from_corpus(ca, max_behaviours=80 if quick else 6000, rng=rng, need=fires)
+        for i, b in enumerate(b9):
+            b["id"] = "al%d" % i
+        plans.append((al, b9))
     if prop in ("C12", "C10", "C01"):
         sg = dict(SEEDED_G, MaxOps=2 if quick else 3)
         if not quick:
